@@ -3,9 +3,14 @@ package main
 import (
 	"encoding/json"
 	"fmt"
+	dcp "github.com/Trendyol/go-dcp"
+	"github.com/Trendyol/go-dcp/api"
 	"github.com/Trendyol/go-dcp/config"
+	"github.com/Trendyol/go-dcp/helpers"
+	"github.com/Trendyol/go-dcp/membership"
 	"github.com/Trendyol/go-dcp/models"
 	"github.com/bytedance/sonic"
+	"github.com/prometheus/client_golang/prometheus"
 	"strings"
 	"time"
 
@@ -84,6 +89,7 @@ func init() {
 			}
 			out = append(out, seq...)
 			out = append(out, Instance{Scenario: "c02_sessions", Params: mustJSON(SessionsParams{}), Bound: 0, Shards: 2, Note: "saves in the sessions after real rebalances that grow / shift the assignment: what is acknowledged on a newly acquired vBucket is stored by the next save (checked by the next session's stream request)"})
+			out = append(out, Instance{Scenario: "c05_rebalance_paths", Params: mustJSON(struct{}{}), Bound: 0, Note: "the save that precedes the close of a rebalance, for every way a rebalance is requested (bus, PUT /membership/info, GET /rebalance)"})
 			out = append(out, Instance{Scenario: "c05_finite_close", Params: mustJSON(struct{}{}), Bound: 0, Note: "the closing save when the client stops on its own (finite mode, every stream ended): what was acknowledged is stored when Start() has returned"})
 			out = append(out, Instance{Scenario: "c05_slowstore", Params: mustJSON(struct{}{}), Bound: 0, Note: "a custom backend whose Save() is slower than checkpoint.timeout while a second save is requested: the newer position wins"})
 			out = append(out, Instance{Scenario: "c05_manyvb", Params: mustJSON(struct{}{}), Bound: 0, Shards: 2, Note: "one save for 129 / 300 acknowledged vBuckets"})
@@ -541,6 +547,87 @@ func init() {
 				}
 				vrt.Failf("%s: seq 1 and 2 were acknowledged and three saves have completed; the store holds %d (order in which positions reached the store: %v)", desc, got, sm.applied)
 			}
+		}}
+	}
+}
+
+// c05_rebalance_paths: "acknowledged work is not left unpersisted" across a rebalance, for every way a rebalance
+// can be requested: the membership bus, PUT /membership/info (dynamic), GET /rebalance. Automatic checkpointing
+// with a long interval (no periodic save in between): what was acknowledged before the request is in the
+// store when the stream has been re-opened, and the re-open resumes from it.
+func init() {
+	scenarios["c05_rebalance_paths"] = func(raw json.RawMessage) *vrt.Scenario {
+		return &vrt.Scenario{Name: "c05_rebalance_paths", FreeChoices: true, NoTimerAlt: true, MaxSteps: 2_000_000, Main: func() {
+			resetGlobals()
+			src := []string{"bus", "api-info", "api-rebalance"}[vrt.Choose(3, true, "rebalance-requested-through")]
+			mem := []string{"dynamic", "static"}[vrt.Choose(2, true, "membership")]
+			if mem == "static" && src == "api-info" {
+				vrt.SetOutcome("n/a")
+				return
+			}
+			o := DcpOpts{}
+			o.Vbs = 2
+			o.CheckpointType = "auto"
+			o.MembershipType = mem
+			o.AutoAck = true
+			o.CheckpointInterval = 1000 * time.Second
+			o.RebalanceDelay = 2 * time.Second
+			c := NewCluster(&o.EnvOpts)
+			for vb := uint16(0); vb < 2; vb++ {
+				c.Append(vb, marker(1, 3), mut(1, "a"), mut(2, "b"), mut(3, "c"))
+			}
+			e := NewDcpEnv(c, o)
+			if e.Err != nil {
+				vrt.Failf("newDcp: %v", e.Err)
+				return
+			}
+			if mem == "dynamic" {
+				vrt.GoNamed("first-membership", func() {
+					vrt.Sleep(1)
+					e.bus().Publish(helpers.MembershipChangedBusEventName, &membership.Model{MemberNumber: 1, TotalMembers: 1})
+				})
+			}
+			e.Start()
+			vrt.Quiesce()
+			c.WaitIdle()
+			vrt.Quiesce()
+			if len(e.Cons.Events) != 6 {
+				vrt.Failf("harness: %d of 6 events delivered", len(e.Cons.Events))
+				return
+			}
+			a := newAPI(e.Cfg, e.D.GetClient(), dcpStream(e), []prometheus.Collector{}, e.bus(), dcp.VerifDiscovery(e.D))
+			n0 := len(c.Requests)
+			switch src {
+			case "bus":
+				e.bus().Publish(helpers.MembershipChangedBusEventName, &membership.Model{MemberNumber: 1, TotalMembers: 1})
+			case "api-info":
+				_, _, _ = api.VerifPutInfo(a.(api.API), []byte(`{"memberNumber":1,"totalMembers":1}`))
+			case "api-rebalance":
+				_, _, _ = api.VerifRebalance(a.(api.API))
+			}
+			vrt.Sleep(o.RebalanceDelay + 5*time.Second)
+			vrt.Quiesce()
+			c.WaitIdle()
+			desc := fmt.Sprintf("%s membership, rebalance requested through %s, 3 events per vBucket acknowledged before it", mem, src)
+			reopened := false
+			for _, r := range c.Requests[n0:] {
+				if r.Kind == "openstream" {
+					reopened = true
+					if r.Args[2] != 3 {
+						vrt.Failf("%s: vb%d was re-opened from %d, the acknowledged position is 3", desc, r.Vb, r.Args[2])
+					}
+				}
+			}
+			if !reopened {
+				vrt.Failf("%s: the stream was not re-opened", desc)
+			}
+			for vb := uint16(0); vb < 2; vb++ {
+				if st, _ := e.StoredSeq(vb); st != 3 {
+					vrt.Failf("%s: after the re-open the store holds %d for vb%d", desc, st, vb)
+				}
+			}
+			vrt.SetOutcome(desc)
+			e.D.Close()
 		}}
 	}
 }
